@@ -21,6 +21,7 @@ func init() {
 			"(5) duplicate-partition guard: processing of a response partition (processRespPartition, both preferred-replica appends, every reload) happens only after the seen-set test failed and the entry was added to the seen set, keyed by the request's own entry; unknown topics/partitions are skipped; " +
 			"(2b) what is skipped: runC04 also runs the keep rules shared with C05/C06 (fetchKeepRules in c05_c06.go: records-appended-only-when-kept, control-records-dropped, abort-verdict-plumbing and abort-marker-reached - every record of a batch, kept or not, passes the abort-marker bookkeeping before the next record, so an abort marker kept under KeepControlRecords still ends its producer's aborted range and later committed batches are not dropped); " +
 			"(2c) fetch-session mirror: commitFromReq applies the acknowledged request's topics and its forgotten topics to fetchSession.used on every path on which the session is not killed (no other early return), deletes every forgotten partition and records every sent partition at {FetchOffset, CurrentLeaderEpoch}, skipping an entry only for an unnamed topic (or a topic absent from the mirror); fetch commits exactly req.committedTopics / req.committedForgotten after the response was processed and AppendTo snapshots both on every path; the mirror is otherwise replaced only by kill / reset - a partition the broker was told to forget must leave the mirror or AppendTo omits it forever after a pause/resume at the same offset; " +
+			"(2d) failed list / epoch loads: the reload goroutine of consumerSession.listOrEpoch hands the failed loads back to the session (reloads.loadWithSession(s, ...)) on every path to its exit, including the session-context-cancelled arm (a deferred call counts), before the deferred decWorker releases the worker count, and is spawned for every non-empty failed set from a defer registered before results are collected - otherwise stopSession cannot carry the load to the next session and the cursor is never re-enabled; " +
 			"(6) paused partitions: a buffered partition that is paused is re-enabled without setOffset and is stripped from the returned fetch (takeBuffered), or stripped, re-enabled and forgotten (takeNBuffered); no setOffset is reachable under a paused test. Clause 4 of the plan (stop-first / publish-last) is decided by C41 rules migrate-stop-first, migrate-add-last, move-add-last, allow-usable-source-first.",
 		NotDecided:  "the history-level statement (exactly once, in order, against a real broker and schedules); fetch-session bookkeeping values; that a conformant broker sends an empty body with a top-level session error (the reload hand-off is checked on the success path only); the content of list-offset results (C40).",
 		Assumptions: []string{"C06 rules next-offset-writers and records-appended-only-filtered (parser returns last kept/skipped offset + 1, drops records below the requested offset)", "C41 publish-order rules for cursor migration"},
@@ -54,6 +55,7 @@ func runC04(c *Ctx) {
 	x.reloadHandoff()
 	x.epochValidation()
 	x.sessionMirror()
+	x.failedLoads()
 	// "skips only control records or, under read_committed, aborted data":
 	// the per-record keep / abort-marker rules are shared with C05 / C06.
 	fetchKeepRules(c, m)
